@@ -1,39 +1,91 @@
 #!/usr/bin/env python3
-"""Summarise the seed matrix: reads /tmp/mxv/<Cnn>_<k>/<Cmm>.log written by seedmatrix.sh,
-fills seeded/<id>/meta.json detected_by and prints the markdown table for DESIGN.md section 7."""
+"""Summarise the seed matrix.
+
+Reads /tmp/mxv/<seed-id>/<Cnn>.log written by seedmatrix.sh (the final run with the committed checks),
+fills seeded/<id>/meta.json (detected_by, own_property_check_fires) and prints DESIGN.md section 7.2:
+one table per round, the summary lines, and for round 3 the first-run (held-out) numbers kept in
+seeded/round3_first_run.json together with which round-3 changes repeat an earlier one."""
 import glob, json, os, re, sys
 root = sys.argv[1] if len(sys.argv) > 1 else '/tmp/mxv'
+
+def rnd(sid):
+    return 3 if '-r3' in sid else 2 if '-r2' in sid else 1
+
+def patch_sig(p):
+    files, lines = set(), set()
+    for l in open(p, errors='replace'):
+        if l.startswith('+++ b/'):
+            files.add(l[6:].strip())
+        elif (l.startswith('+') or l.startswith('-')) and not l.startswith('+++') and not l.startswith('---'):
+            t = l[1:].strip()
+            if len(t) > 8:
+                lines.add((l[0], t))
+    return files, lines
+
+sigs = {os.path.basename(d): patch_sig(d + '/patch.diff') for d in glob.glob('/verif/seeded/C*') if os.path.isdir(d)}
+repeats = {}
+for s, (f, l) in sigs.items():
+    r = [t for t, (f2, l2) in sigs.items() if rnd(t) < rnd(s) and (f & f2) and (l & l2)]
+    if r:
+        repeats[s] = sorted(r)
+
 rows = []
-for d in sorted(glob.glob(os.path.join(root, 'C*-*'))):
-    sid = os.path.basename(d)
+for sid in sorted(sigs):
+    d = os.path.join(root, sid)
     prop = sid.split('-')[0]
-    if not os.path.isdir(f'/verif/seeded/{sid}'):
-        continue
-    det = {}
+    det, ran = {}, []
     for lg in sorted(glob.glob(os.path.join(d, 'C*.log'))):
         p = os.path.basename(lg)[:-4]
+        ran.append(p)
         txt = open(lg, errors='replace').read()
-        if 'VIOLATION property=' not in txt and 'ERROR property=' not in txt:
-            continue
-        rules = sorted(set(re.findall(r'rule=([A-Za-z0-9/_-]+)', txt)))
-        if not rules and 'ERROR property=' in txt:
-            rules = ['(checker error: fail closed)']
-        det[p] = rules
-    rows.append((sid, prop, det))
+        if 'VIOLATION property=' in txt:
+            det[p] = sorted(set(re.findall(r'rule=([A-Za-z0-9/_-]+)', txt)))
+        elif 'ERROR property=' in txt:
+            det[p] = ['(undecided: fail closed)']
+    rows.append((sid, prop, det, ran))
     mp = f'/verif/seeded/{sid}/meta.json'
     m = json.load(open(mp))
-    m['detected_by'] = {p: r for p, r in det.items()} if det else "no check"
-    m['own_property_check_fires'] = prop in det
-    json.dump(m, open(mp, 'w'), indent=1)
-print('| seed | own property | rules that fire (own property) | other properties whose check also fires |')
-print('|---|---|---|---|')
-own = 0
-for sid, prop, det in rows:
-    o = ', '.join(det.get(prop, [])) or '**none**'
-    others = '; '.join(f'{p}: {", ".join(r)}' for p, r in det.items() if p != prop) or '-'
-    if prop in det:
-        own += 1
-    print(f'| {sid} | {"yes" if prop in det else "NO"} | {o} | {others} |')
-print()
-print(f'{own} of {len(rows)} seeded changes are reported by the check of the property they were written against; '
-      f'{sum(1 for _,_,d in rows if d)} of {len(rows)} by at least one check.')
+    if ran:
+        m['detected_by'] = det if det else 'no check'
+        m['checks_run_in_final_matrix'] = ran
+        m['own_property_check_fires'] = prop in det
+        if sid in repeats:
+            m['repeats_change_of'] = repeats[sid]
+        json.dump(m, open(mp, 'w'), indent=1)
+
+def table(r):
+    print('| seed | own property check | rules that fire under the own property | checks of other properties that also fire |')
+    print('|---|---|---|---|')
+    for sid, prop, det, ran in rows:
+        if rnd(sid) != r:
+            continue
+        if not ran:
+            print(f'| {sid} | (not run) | | |')
+            continue
+        o = ', '.join(det.get(prop, [])) or '**none**'
+        others = '; '.join(f'{p}: {", ".join(x)}' for p, x in det.items() if p != prop) or '-'
+        rep = f' (repeats {", ".join(repeats[sid])})' if sid in repeats else ''
+        print(f'| {sid}{rep} | {"fires" if prop in det else "**quiet**"} | {o} | {others} |')
+    sel = [x for x in rows if rnd(x[0]) == r and x[3]]
+    own = sum(1 for x in sel if x[1] in x[2])
+    anyc = sum(1 for x in sel if x[2])
+    print()
+    print(f'Round {r}: {own} of {len(sel)} changes are reported by the check of the property they were written against, {anyc} of {len(sel)} by at least one check (final checks).')
+    print()
+
+for r in (1, 2, 3):
+    print(f'#### Round {r}\n')
+    table(r)
+
+fr = json.load(open('/verif/seeded/round3_first_run.json'))
+own = sum(1 for v in fr.values() if v['own_property_check_fired'])
+anyc = sum(1 for v in fr.values() if v['fired'])
+novel = [s for s in fr if s not in repeats]
+own_n = sum(1 for s in novel if fr[s]['own_property_check_fired'])
+any_n = sum(1 for s in novel if fr[s]['fired'])
+print('#### Round 3 as first run (held out)\n')
+print(f'First run of the checks as they stood when round 3 was delivered: {own} of {len(fr)} reported by the own property\'s check, {anyc} of {len(fr)} by some check. '
+      f'{len(fr) - len(novel)} of the 40 changes repeat a change of round 1 or 2 (same file, at least one identical changed line - the sub-agents do not know of each other and converge on the same slips); '
+      f'of the {len(novel)} that do not, {own_n} were reported by the own property\'s check and {any_n} by some check on that first run.')
+missed = sorted(s for s in fr if not fr[s]['fired'])
+print(f'Not reported by any check on the first run: {", ".join(missed)}.')
